@@ -49,8 +49,21 @@ def gen_case(rng, k, flags=None, nops=None, change_flags=False):
         r = rng.random()
         live = [i for i, p in enumerate(phase) if p != -1]
         if (r < 0.25 or not live) and len(phase) < 10:
-            L.append("conn %d" % (1 if rng.random() < 0.2 else 0))
-            phase.append(1)
+            rev = 1 if rng.random() < 0.2 else 0
+            h = rng.random()
+            if h < 0.12:
+                L.append("connhold %d" % rev)      # newClientHook: RFB_CLIENT_ON_HOLD
+                phase.append(0)
+            elif h < 0.18:
+                L.append("connrefuse %d" % rev)    # newClientHook: RFB_CLIENT_REFUSE
+                phase.append(-1)
+            else:
+                L.append("conn %d" % rev)
+                phase.append(1)
+        elif r < 0.32 and any(phase[i] == 0 for i in live):
+            i = rng.choice([i for i in live if phase[i] == 0])
+            L.append("release %d" % i)
+            phase[i] = 1
         elif r < 0.45:
             c = [i for i in live if phase[i] == 1] or live
             i = rng.choice(c)
@@ -83,16 +96,18 @@ def gen_directed(k, fl, order, shareds, revs, parked):
     L = ["case %d directed a%dn%dd%d" % (k, fl[0], fl[1], fl[2]), "flags %d %d %d" % fl]
     n = len(order)
     for i in range(n):
-        L.append("conn %d" % revs[i])
+        L.append("%s %d" % ("connhold" if parked[i] == 3 else "conn", revs[i]))
     for i in range(n):
-        if parked[i] != 1:
+        if parked[i] not in (1, 3):
             L.append("adv %d" % i)
     for i in order:
         if parked[i] == 0:
             L.append("init %d %d" % (i, shareds[i]))
     L.append("probe")
     for i in order:
-        if parked[i] == 1:
+        if parked[i] == 3:
+            L.append("release %d" % i)
+        if parked[i] in (1, 3):
             L.append("adv %d" % i)
         if parked[i]:
             L.append("init %d %d" % (i, shareds[i]))
@@ -127,7 +142,7 @@ def gen_cases(ctx):
                         for pk in range(-1, n):
                             if not ctx.quick() or rng.random() < 0.12:
                                 revs = [1 if i == rv else 0 for i in range(n)]
-                                parked = [(rng.choice([1, 2]) if i == pk else 0) for i in range(n)]
+                                parked = [(rng.choice([1, 2, 3]) if i == pk else 0) for i in range(n)]
                                 cases.append(gen_directed(len(cases), fl, order, shareds, revs, parked))
     nrand = 1500 if ctx.quick() else 20000
     for _ in range(nrand):
@@ -155,6 +170,7 @@ def oracle_case(lines, impl_lines):
     always = never = dont = False
     never_throughout = None
     revs, prev = [], []
+    held_gone = set()        # clients whose peer went away while they were on hold
     it = iter(impl_lines)
     for op in lines[1:]:
         p = op.split()
@@ -173,9 +189,14 @@ def oracle_case(lines, impl_lines):
             always, never, dont = p[1] == "1", p[2] == "1", p[3] == "1"
             never_throughout = never if never_throughout is None else (never_throughout and never)
             want = prev
-        elif p[0] == "conn":
+        elif p[0] in ("conn", "connhold", "connrefuse"):
             revs.append(p[1] == "1")
-            want = prev + [1]
+            want = prev + [{"conn": 1, "connhold": 0, "connrefuse": -1}[p[0]]]
+        elif p[0] == "release":
+            i = int(p[1])
+            want = list(prev)
+            if i < len(prev) and prev[i] == 0:
+                want[i] = -1 if i in held_gone else 1
         elif p[0] == "adv":
             i = int(p[1])
             want = list(prev)
@@ -185,7 +206,10 @@ def oracle_case(lines, impl_lines):
             i = int(p[1])
             want = list(prev)
             if i < len(prev):
-                want[i] = -1
+                if prev[i] == 0:
+                    held_gone.add(i)      # an on-hold client is not read from: noticed at release
+                else:
+                    want[i] = -1
         elif p[0] == "probe":
             want = prev
             for j, (s, bad) in enumerate(cur):
@@ -272,7 +296,7 @@ def check(ctx):
                 i = int(op.split()[1])
                 if i < len(prev) and prev[i][0] == 3:
                     others = sum(1 for j, (s, _) in enumerate(prev) if j != i and s == 4)
-                    mid = sum(1 for j, (s, _) in enumerate(prev) if j != i and s in (1, 3))
+                    mid = sum(1 for j, (s, _) in enumerate(prev) if j != i and s in (0, 1, 3))
                     closed = sum(1 for (a, _), (b, _) in zip(prev, st) if a == 4 and b == -1)
                     distinct.add((c[0].split()[2][:6] if len(c[0].split()) > 2 else "", int(op.split()[2]) != 0,
                                   min(others, 3), min(mid, 2), st[i][0], min(closed, 3)))
@@ -282,7 +306,7 @@ def check(ctx):
                                               (rc1, len(cc), len(cases), cerr[-500:]), {"what": "harness-died"})))
     ctx.coverage.update(
         evaluations=nops, distinct_nontrivial=len(distinct),
-        rule="sharing scripts (flags, connect inbound/reverse, advance handshake, ClientInit with shared byte, drop, probe) run "
+        rule="sharing scripts (flags, connect inbound/reverse with newClientHook accept / on-hold / refuse, release, advance handshake, ClientInit with shared byte, drop, probe) run "
              "on the extracted Coq model and on the real library; the rfb state of every client is compared after every op. "
              "distinct_nontrivial = distinct (flag class, shared?, #other RFB_NORMAL clients, #mid-handshake clients, "
              "newcomer outcome, #clients closed) over the ClientInit decisions actually taken by the implementation",
